@@ -47,11 +47,12 @@ CLAIMED.update({
             "the nth variants fail exactly for n >= extent; the mutable outer iterators hand out nrows/ncols vectors at the same positions whenever the matrix has elements. "
             "For element-less matrices with a non-zero extent the mutable outer iterators yield nothing (known finding F2, refuted by witness in Props/C06.v and reproduced on the crate every run).",
             TB + " Consumption from either end is the deque semantics of Model/Views.v, validated by scripts, not a theorem about std's DoubleEndedIterator impls.", "DESIGN §7 C06"),
-    'C07': ("Rocq proof of == (both branches incl. the short-circuiting cross-order loop) + metamorphic differential correspondence",
+    'C07': ("Rocq proof of == (both branches incl. the short-circuiting cross-order loop) and order-transparency corollaries for the main operations + metamorphic differential correspondence",
             "== of the executable model is proved true exactly when logical shapes agree and elements at equal logical positions are equal, for any orders, never reading out of range; re-storing an operand "
-            "in the other order cannot change the outcome. Order-transparency of the other operations is carried by the theorems of C05/C06/C10/C11/C12/C14 (all stated through the logical accessor) "
-            "and exercised by running random programs twice with switch_order inserted at arbitrary points.",
-            TB + " Reflexivity/symmetry/transitivity follow from C07_eq_iff for element relations that have them; Display transparency is C20's.", "DESIGN §7 C07"),
+            "in the other order cannot change the outcome. For transpose, switch_order, swap_rows/swap_cols, overwrite, the elementwise operations and the matrix product it is proved that operands with the same logical grid "
+            "(same shape, same element at every logical position, any storage orders) give the same error or results with the same logical grid; Display: C20_display_order_transparent; views: C06 (stated through the logical accessor). "
+            "Exercised by running random programs twice with switch_order inserted at arbitrary points.",
+            TB + " Reflexivity/symmetry/transitivity follow from C07_eq_iff for element relations that have them.", "DESIGN §7 C07"),
     'C12': ("Rocq proofs of conformability and of the three elementwise drivers (same-order zip, cross-order remap) + differential correspondence",
             "is_elementwise_operation_conformable <-> equal logical shapes; for conformable operands the drivers produce op(lhs[r][c], rhs[r][c]) at every position in lhs's shape and order, the cross-order "
             "unchecked read proved in range; otherwise ShapeNotConformable. Named methods and operators are the same drivers with the primitive operator (model Step.binop), validated on symbolic elements.",
@@ -122,7 +123,7 @@ CLAIMED.update({
             "Proved on the model (every coherent matrix, every shape incl. degenerate ones, both orders, every rendering function: any width, any number of lines): Display and Debug never panic - the per-element "
             "line cache is only indexed inside its bounds; element-less matrices print \"[]\"; otherwise the text equals display_text / debug_text, a pure fold over rows, lines and columns of the k-th line of the element "
             "at each logical position (each element's k-th line printed exactly once, in row then column order), so Display is identical for equal matrices in different storage orders; for single-line renderings Display is "
-            "one bracketed line per logical row, cells in column order, all lines equally wide; Debug labels each cell with flat(row, col) = its position in the element store and numbers rows and columns. "
+            "one bracketed line per logical row, cells in column order, all lines equally wide (also proved for Debug's row lines); Debug labels each cell with flat(row, col) = its position in the element store and numbers rows and columns. "
             "Correspondence + direct oracles: the exact strings of Display and Debug equal the model's for every shape <= 4x4 in both orders over a table of renderings (empty, multi-byte, multi-line, CRLF, trailing newline, wide) "
             "in the crate's three feature configurations (default, no default features, full with the colour feature writing to a pipe).",
             TB + " str::lines, `{:w$}` padding (one column per char) and usize printing are modelled std behaviour; owo-colors/supports-color on a non-terminal is observed, not proved; colours-supported output is out of scope of the property.", "DESIGN §7 C20"),
